@@ -89,7 +89,12 @@ func (o *objectGoMapSimple) defineOwnPropertyStr(name unistring.String, descr Pr
 
 	n := name.String()
 	if o.extensible || o._hasStr(n) {
-		o.data[n] = descr.Value.Export()
+		if descr.Value != nil {
+			o.data[n] = descr.Value.Export()
+		} else if !o._hasStr(n) {
+			// no [[Value]] in the descriptor: a new property is undefined, an existing one keeps its value
+			o.data[n] = nil
+		}
 		return true
 	}
 
